@@ -78,10 +78,34 @@ def main():
     ap.add_argument("--tier", default="quick")
     ap.add_argument("--needs", default="")
     ap.add_argument("--confirm-only", action="store_true", help="only the scratch-worktree confirmation (demo both ways + suite); run --recheck afterwards")
+    ap.add_argument("--suite-only", action="store_true", help="re-run only the repository suite with the stored patch in a scratch worktree and update meta.json")
     ap.add_argument("--recheck", action="store_true", help="only re-run the checks against the stored patch and update meta.json")
     a = ap.parse_args()
     if a.recheck:
         return recheck(a)
+    if a.suite_only:
+        dst = os.path.join(VERIF, "seeded", a.sid)
+        meta = json.load(open(os.path.join(dst, "meta.json")))
+        wt = "/tmp/wt_eval_%s" % a.sid
+        sh(["git", "-C", "/repo", "worktree", "remove", "--force", wt])
+        rc, out = sh(["git", "-C", "/repo", "worktree", "add", "-q", wt, "HEAD"])
+        assert rc == 0, out
+        env = dict(os.environ)
+        env.pop("AEGEAN_VERIF", None)
+        env["TQDM_DISABLE"] = "1"
+        try:
+            rc, out = sh(["git", "apply", os.path.join(dst, "patch.diff")], cwd=wt)
+            assert rc == 0, out
+            t = time.time()
+            rc, out = sh("%s -m pytest -q -p no:cacheprovider --timeout=900 2>&1 | tail -3" % PY, cwd=wt, timeout=3600, env=env)
+            meta["confirmed"]["suite_tail"] = out.strip()[-300:]
+            meta["confirmed"]["suite_passes"] = (" failed" not in out) and (" passed" in out) and ("error" not in out.lower().split("passed")[0][-40:])
+            meta["ran"].append("repository test suite with the patch in a scratch worktree, re-run (%.0f s): %s" % (time.time() - t, out.strip().splitlines()[-1] if out.strip() else ""))
+        finally:
+            sh(["git", "-C", "/repo", "worktree", "remove", "--force", wt])
+        json.dump(meta, open(os.path.join(dst, "meta.json"), "w"), indent=1)
+        print(a.sid, meta["confirmed"]["suite_passes"], meta["confirmed"]["suite_tail"][-60:])
+        return
     src = "/tmp/seed/%s" % a.sid
     dst = os.path.join(VERIF, "seeded", a.sid)
     os.makedirs(dst, exist_ok=True)
